@@ -14,8 +14,8 @@ import z3
 from mathy_core.layout import TreeLayout
 from mathy_core.tree import BinaryTreeNode
 
-from ..core import Report, Violation, collect, out_of_time, pmap, seed
-from ..symx import Ctx, Stats, SymNum, Unsupported, RV, explore, frac_of
+from ..core import Report, Violation, collect, isolated_replay, out_of_time, pmap, seed
+from ..symx import Ctx, EngineSignal, Stats, SymNum, Unsupported, RV, explore, frac_of
 from .treeprops import Shape, build_math, build_plain, enum_shapes
 
 Problem = Tuple[str, str]
@@ -74,6 +74,9 @@ def layout_check(shape: Shape, flavour: str, ctx: Optional[Ctx], ux: Any, uy: An
 
     nodes = build_plain(shape) if flavour == "plain" else build_math(shape)
     try:
+        # history: an unrelated, larger tree was laid out earlier in the same process (bounds and coordinates of the
+        # tree under test must not depend on it)
+        TreeLayout().layout(build_plain((1, 2, 3, 4, 5, 6, 7, 8, 15))[1], 3.0, 2.0)
         m = TreeLayout().layout(nodes[1], ux, uy)
     except Exception as e:
         return [("layout-raised", f"layout raised {type(e).__name__}: {str(e)[:80]}")]
@@ -171,8 +174,15 @@ def worker(item: Tuple[Shape, str]) -> Dict[str, Any]:
         if not r.value:
             part["proved"] += 1
             continue
+        hits: List[Problem] = []
         for uxv, uyv in ((1.0, 1.0), (2.5, 0.5)):
-            again = layout_check(shape, flavour, None, uxv, uyv, repeats=2)
+            try:
+                again = layout_check(shape, flavour, None, uxv, uyv, repeats=2)
+            except EngineSignal:
+                # the code under test kept state from the symbolic run (a proxy survived in a shared object):
+                # replay in a fresh interpreter
+                ok, msg = isolated_replay("C18", {"kind": "layout", "shape": list(shape), "flavour": flavour, "ux": uxv, "uy": uyv})
+                again = [(r.value[0][0], msg)] if ok else []
             labels = {p[0] for p in r.value}
             hits = [p for p in again if p[0] in labels]
             if hits:
@@ -225,6 +235,7 @@ def run(tier: str) -> int:
     rep.stats.merge(st)
     rep.bounds = {"depth": depth, "shapes": len(shapes), "extra": f"{len(extra)} five-level shapes with <= 9 nodes",
                   "unit_multipliers": "ux, uy: all positive reals (solver variables)", "repeated_layouts": 3,
+                  "history": "a larger unrelated tree is laid out (scale 3 x 2) before every tree under test",
                   "node_flavours": ["BinaryTreeNode"] + (["MathExpression subclasses"] if tier != "quick" else [])}
     rep.functions = ["TreeLayout.layout/measure/transform", "TreeMeasurement", "TidierExtreme"]
     rep.explanation = (
